@@ -37,7 +37,26 @@ def cases(rng, tier):
         yield "b58ce " + hx(b), "encC-boundary"
         yield "b58d " + sx(b58enc(b)), "dec-of-valid"
         yield "b58cd " + sx(b58check_enc(b)), "decC-of-valid"
+    # "too short to hold a checksum": every proper prefix of payload||checksum for small payloads
+    # (for the empty payload these are the 0..3-byte prefixes of hash256(b"")), and all short strings
+    for pl in [b"", b"\x00", b"\x00\x00", b"\x01", b"\x80", bytes(20), b"\x05" + bytes(range(20))]:
+        raw = pl + dsha(pl)[:4]
+        for k in range(0, len(raw)):
+            if raw[:k]:
+                yield "b58cd " + sx(b58enc(raw[:k])), "decC-truncated-checksum"
+                yield "b58addr " + sx(b58enc(raw[:k])), "decC-truncated-checksum"
+        for pre in (b"\x00", b"\x00\x00\x00"):
+            yield "b58cd " + sx(b58enc(pre + dsha(b"")[:3])), "decC-truncated-checksum"
+    chars = B58 + "0OIl"
+    for a in chars:
+        yield "b58cd " + sx(a), "decC-all-1"
+        for b in chars:
+            yield "b58cd " + sx(a + b), "decC-all-2"
     if tier == "thorough":
+        for a in B58:
+            for b in B58:
+                for c in B58:
+                    yield "b58cd " + sx(a + b + c), "decC-all-3"
         for a in range(256):
             yield "b58e %02x" % a, "enc-all-1"
         for a in range(256):
